@@ -384,7 +384,22 @@ class Decision(object):
         self.violations.append((record, no_input))
         return 'violation'
 
+    def concurrent_use(self, makers, rounds=150):
+        """harness/race.py: the operations, each on its own inputs, from four threads at the same time."""
+        import race
+        bad, n = race.race(makers, rounds=rounds)
+        self._race = dict(operations_run=n, threads=4, disagreements=len(bad),
+                          operations=sorted(set(name for mk in makers for name, _f in mk(0))))
+        for b in bad[:3]:
+            self.report(dict(b, kind='result-depends-on-what-another-thread-does',
+                             detail='each thread computes functions of its own arguments; the result computed alone and the '
+                                    'result computed while three other threads do the same with THEIR arguments differ'))
+
     def finish(self, extra=None):
+        if getattr(self, '_race', None):
+            self.coverage.setdefault('distribution', {})
+            if isinstance(self.coverage['distribution'], dict):
+                self.coverage['distribution']['concurrent_use'] = self._race
         os.makedirs(EVIDENCE, exist_ok=True)
         os.makedirs(REPLAYS, exist_ok=True)
         lines = []
